@@ -326,9 +326,17 @@ func (f *frame) exec(in ssa.Instruction, st *State, cur string) (string, error) 
 
 	case *ssa.MakeClosure:
 		r := f.allocRef(st, f.vname(x))
-		v := &Val{term: r, closureFn: x.Fn.(*ssa.Function)}
-		for _, b := range x.Bindings {
-			v.closureBind = append(v.closureBind, f.valOf(b))
+		fn := x.Fn.(*ssa.Function)
+		v := &Val{term: r, closureFn: fn}
+		cf := B.declFun("closure_fn", []string{"Int"}, "Int")
+		cur = and(cur, fmt.Sprintf("(= (%s %s) %s)", cf, r, t.closureID(fn)))
+		for i, b := range x.Bindings {
+			bv := f.valOf(b)
+			v.closureBind = append(v.closureBind, bv)
+			bf := B.declFun(fmt.Sprintf("closure_bind:%s:%d", FnKey(fn), i), []string{"Int"}, "Int")
+			if B.sortOf(b.Type()) == "Int" {
+				cur = and(cur, fmt.Sprintf("(= (%s %s) %s)", bf, r, f.termOfVal(bv)))
+			}
 		}
 		f.vals[x] = v
 		return cur, nil
@@ -393,7 +401,7 @@ func (f *frame) exec(in ssa.Instruction, st *State, cur string) (string, error) 
 		if !x.Blocking {
 			lo = -1
 		}
-		cur = and(cur, fmt.Sprintf("(and (<= %d %s) (< %s %d))", lo, idx, idx, len(x.States)))
+		cur = and(cur, fmt.Sprintf("(and (<= %s %s) (< %s %d))", smtInt(int64(lo)), idx, idx, len(x.States)))
 		for _, s := range x.States {
 			if s.Dir == types.RecvOnly {
 				et := s.Chan.Type().Underlying().(*types.Chan).Elem()
